@@ -428,6 +428,9 @@ void frequent_items_sketch<T, W, H, E, A>::check_size(uint8_t lg_cur_size, uint8
   if (lg_cur_size < LG_MIN_MAP_SIZE) {
     throw std::invalid_argument("Possible corruption: lg_cur_size must not be less than " + std::to_string(LG_MIN_MAP_SIZE) + ": " + std::to_string(lg_cur_size));
   }
+  if (lg_max_size > 31) { // table sizes are 32-bit
+    throw std::invalid_argument("Possible corruption: lg_max_size must not be greater than 31: " + std::to_string(lg_max_size));
+  }
 }
 
 template<typename T, typename W, typename H, typename E, typename A>
